@@ -3,8 +3,8 @@ EXTENDS Group
 NP21 == [t1 |-> 2, t2 |-> 1]
 NP32 == [t1 |-> 3, t2 |-> 2]
 CTP == <<"t1", 0>>
-\* 3-member exhaustive run: current-generation requests only and no commits (stale generations, unknown members and
-\* commits are independent of the third member and are covered exhaustively by the 2-member configurations)
+\* reduced action mix (current-generation requests only, no commits); was needed for the 3-member run while the store
+\* dropped the timeouts (KeepT={FALSE}: 22 M transitions with the full Next); not used by the registered configs any more
 NextCore == \/ \E c \in Members : \/ \E s \in SubsChoices : Join(c, s)
                                   \/ Sync(c, 0) \/ Heartbeat(c, 0) \/ Leave(c)
             \/ Tick \/ Failover \/ DeleteGroups
